@@ -1,11 +1,59 @@
 (* C19 -- Truncated input is reported as premature end of input.
-   Statements only; proofs are in Reader/Trunc.v. *)
-From HyV Require Import Base.Text Reader.Syntax Gen.ReaderTables Reader.Model Reader.Extend Reader.Concat Reader.Cst
-  Reader.Steps Reader.Roundtrip Reader.Sugar.
+   Statements only; proofs are in Reader/Trunc.v, Reader/Repl.v.
 
-Definition toy : oracles :=
-  {| numeric := fun s => match s with c :: _ => (48 <=? c) && (c <=? 57) | [] => false end;
-     decode := fun _ s => Some s; pyspace := fun c => c =? 32; mk := fun _ _ t => t |}.
+   A partial program ([items] complete, then a partial end [pend], Reader/Partial.v) is a printed
+   program cut: after any complete item or separator, inside a whitespace run, inside a line comment,
+   after the # of a tag, after any sugar or discard prefix or between the two operands of the annotate
+   sugar, after any opener, and inside a string-like leaf whose prefix on its own reads as Premature --
+   at any nesting depth, with arbitrary separators everywhere.  [pend_open]: the cut leaves a construct
+   open (as opposed to: it falls between top-level forms or inside a top-level comment). *)
+From HyV Require Import Base.Text Reader.Syntax Gen.ReaderTables Reader.Model Reader.Extend Reader.Concat Reader.Cst
+  Reader.Steps Reader.Roundtrip Reader.Partial Reader.Trunc Reader.Repl.
+
+Theorem C19_truncation_premature_partial : forall orc, orc_ok orc -> forall its pe,
+  wf_items orc its (fst_of (render_pend pe) None) = true -> pwf_pend orc pe = true ->
+  read_many orc (render_items its ++ render_pend pe) = if pend_open pe then Premature else Ok (erase_items orc its).
+Proof. exact truncation_premature. Qed.
+Print Assumptions C19_truncation_premature_partial.
+
+(* the same inside any form, and in the three reading contexts (what the induction is about) *)
+Theorem C19_truncation_in_context_partial : forall orc, orc_ok orc ->
+  (forall t, pwf_tail orc t = true -> ctx orc (render_ptail t) (tail_open t))
+  /\ (forall pe, pwf_pend orc pe = true -> ctx orc (render_pend pe) (pend_open pe))
+  /\ (forall pc, pwf orc pc = true -> exists n, rd orc n MTry (render_p pc) = RPrem).
+Proof. exact truncation_all. Qed.
+Print Assumptions C19_truncation_in_context_partial.
+
+(* The REPL's continuation prompt: more input is requested iff the outcome is Premature. *)
+Theorem C19_repl_continuation : forall o, repl_wants_more o = true <-> o = Premature.
+Proof. exact repl_continuation. Qed.
+Print Assumptions C19_repl_continuation.
+
+(* What is not proved (validated per cut point by the harness instead): that EVERY cut point of every
+   printed program is the printing of a well-formed partial program, or lies strictly inside a leaf whose
+   prefix does not read on its own as Premature (an identifier-like token: the property makes no claim
+   when no delimiter encloses it; inside a delimiter the enclosing construct is open and the outcome is
+   that of the prefix of the leaf -- which is where C19_refuted_dotted_identifier lives). *)
+Definition C19_full : Prop := forall orc, orc_ok orc -> forall its trail, wf_prog orc its trail = true ->
+  forall k, let p := firstn k (render_prog its trail) in
+  (exists its' pe, p = render_items its' ++ render_pend pe
+                   /\ wf_items orc its' (fst_of (render_pend pe) None) = true /\ pwf_pend orc pe = true
+                   /\ read_many orc p = if pend_open pe then Premature else Ok (erase_items orc its'))
+  \/ (exists pre t p' post, render_prog its trail = pre ++ t ++ post /\ leaf_ok orc t = true
+                   /\ p = pre ++ p' /\ p' <> [] /\ p' <> t /\ leaf_open orc p' = false).
+
+(* a non-trivial instance: the program  ( a SP 'b SP #_ SP ( c   cut there, and cut after  ( a ) SP ; c  *)
+Example C19_ex_open :
+  let pe := PEnd SNil (TForm (PSeq KExpr (ICons SNil (CLeaf [97]) (ICons (SWs 32 SNil) (CWrap WQuote SNil (CLeaf [98])) INil))
+                                  (PEnd (SWs 32 SNil) (TDis (PEnd (SWs 32 SNil) (TForm (PSeq KExpr (ICons SNil (CLeaf [99]) INil) (PEnd SNil TEnd)))))))) in
+  pwf_pend toy pe = true /\ pend_open pe = true /\ read_many toy (render_items INil ++ render_pend pe) = Premature.
+Proof. vm_compute. repeat split; reflexivity. Qed.
+Example C19_ex_boundary :
+  let its := ICons SNil (CSeq KExpr (ICons SNil (CLeaf [97]) INil) SNil) INil in
+  let pe := PEnd (SWs 32 SNil) (TCom [99]) in
+  wf_items toy its (fst_of (render_pend pe) None) = true /\ pwf_pend toy pe = true /\ pend_open pe = false
+  /\ read_many toy (render_items its ++ render_pend pe) = Ok [Seq KExpr [Sym [97]]].
+Proof. vm_compute. repeat split; reflexivity. Qed.
 
 (* The faithful model violates the property at three classes of cut points (each witness is a
    well-formed text that reads, cut inside an unclosed construct, and the prefix reads as Lex):
@@ -13,22 +61,13 @@ Definition toy : oracles :=
    next character is the closing brace, at the end of input *)
 Theorem C19_refuted_fstring_field : exists t k ms,
   read_many toy t = Ok ms /\ Nat.ltb k (length t) = true /\ read_many toy (firstn k t) = Lex.
-Proof.
-  exists [40; 102; 34; 97; 123; 120; 125; 34; 41], 6%nat. eexists. split; [vm_compute; reflexivity|]. split; [vm_compute; reflexivity|].
-  vm_compute. reflexivity.
-Qed.
+Proof. exact refuted_fstring_field. Qed.
 (* (foo.bar)  cut after  (foo.     -- as_identifier validates the token when its characters end *)
 Theorem C19_refuted_dotted_identifier : exists t k ms,
   read_many toy t = Ok ms /\ Nat.ltb k (length t) = true /\ read_many toy (firstn k t) = Lex.
-Proof.
-  exists [40; 102; 111; 111; 46; 98; 97; 114; 41], 5%nat. eexists. split; [vm_compute; reflexivity|]. split; [vm_compute; reflexivity|].
-  vm_compute. reflexivity.
-Qed.
+Proof. exact refuted_dotted_identifier. Qed.
 (* f DQ a } } DQ  cut between the braces -- a single closing brace at the end of input is a SyntaxError, converted *)
 Theorem C19_refuted_fstring_rbrace : exists t k ms,
   read_many toy t = Ok ms /\ Nat.ltb k (length t) = true /\ read_many toy (firstn k t) = Lex.
-Proof.
-  exists [102; 34; 97; 125; 125; 34], 4%nat. eexists. split; [vm_compute; reflexivity|]. split; [vm_compute; reflexivity|].
-  vm_compute. reflexivity.
-Qed.
+Proof. exact refuted_fstring_rbrace. Qed.
 Print Assumptions C19_refuted_fstring_field.
